@@ -185,4 +185,179 @@ Proof.
   apply IH; auto. apply step_inv; auto. intros c E. subst e. discriminate.
 Qed.
 
+
+(** ** waits end *)
+
+Definition weight (k : caller) : nat := (2 * length (todo k) + (if is_held k then 1 else 0))%nat.
+Definition mu (st : state) : nat := list_sum (map weight (s_callers st)).
+
+Lemma list_sum_upd : forall (f : caller -> nat) l i x d, (i < length l)%nat ->
+  (list_sum (map f (upd i x l)) + f (nth i l d) = list_sum (map f l) + f x)%nat.
+Proof.
+  induction l as [|h t IH]; intros [|i] x d H; cbn [length] in H; try lia; cbn [upd map nth list_sum fold_right].
+  - lia.
+  - specialize (IH i x d). unfold list_sum in IH. lia.
+Qed.
+
+Lemma advance_callers : forall st i k, tget (k_tok k) (s_table st) = None ->
+  exists k', s_callers (advance st i k) = upd i k' (s_callers st)
+             /\ (weight k' <= 2 * length (k_prog k) + 1)%nat.
+Proof.
+  intros st i k Ht. unfold advance. destruct (k_prog k) as [|cl rest'] eqn:Ep.
+  - eexists. split; [reflexivity|]. unfold weight, todo, pending, is_held; cbn. lia.
+  - unfold submit. rewrite Ht. destruct (c_hold cl && negb (k_co k)).
+    + eexists. split; [reflexivity|]. unfold weight, todo, pending, is_held; cbn. lia.
+    + destruct (k_co k && is_closed st cl); (eexists; split; [reflexivity|]);
+        unfold weight, todo, pending, is_held; cbn; lia.
+Qed.
+
+Lemma complete_mu : forall rest st j q, Inv None rest total st ->
+  nth_error (s_inflight st) j = Some q -> completable st q = true -> (mu (complete st j) < mu st)%nat.
+Proof.
+  intros rest st j q HI Hq Hc.
+  destruct (i_fl_a _ _ _ _ _ _ HI q (nth_error_In _ _ Hq)) as [kq [cl [Hk [Hst Hqeq]]]].
+  assert (Hcl : q_call q = cl) by (rewrite Hqeq; auto).
+  unfold completable in Hc. rewrite Hcl in Hc.
+  destruct (kernel (c_res cl) (nth (c_res cl) (s_res st) rdummy) (c_op cl) (c_len cl)) as [|v bytes x'] eqn:Hker;
+    try discriminate.
+  erewrite (complete_eq rs cs); eauto.
+  match goal with |- (mu (advance ?S ?i ?K) < _)%nat =>
+    destruct (advance_callers S i K) as [k' [Hcs Hw]] end.
+  { cbn [s_table k_tok]. apply tget_tdel_same. }
+  unfold mu. rewrite Hcs. cbn [s_callers]. rewrite upd_upd.
+  assert (Hlt : (q_own q < length (s_callers st))%nat) by (eapply nth_error_some_lt; eauto).
+  pose proof (list_sum_upd weight (s_callers st) (q_own q) k' cdummy Hlt) as Hs.
+  rewrite (nth_error_nth _ _ _ cdummy Hk) in Hs.
+  assert (weight kq = 2 * S (length (k_prog kq)))%nat.
+  { unfold weight, todo, pending, is_held. rewrite Hst. cbn. lia. }
+  cbn [k_prog] in Hw. lia.
+Qed.
+
+Lemma reg_mu : forall st c k, nth_error (s_callers st) c = Some k -> is_held k = true -> (mu (reg st c) < mu st)%nat.
+Proof.
+  intros st c k Hk Hh. unfold reg. rewrite (nth_error_nth _ _ _ cdummy Hk).
+  unfold is_held in Hh. destruct (k_stat k) as [|cl|cl|] eqn:Hst; try discriminate.
+  unfold mu, push. cbn [set_inflight set_caller set_callers s_callers].
+  assert (Hlt : (c < length (s_callers st))%nat) by (eapply nth_error_some_lt; eauto).
+  pose proof (list_sum_upd weight (s_callers st) c (with_stat k (SWait cl)) cdummy Hlt) as Hs.
+  rewrite (nth_error_nth _ _ _ cdummy Hk) in Hs.
+  assert (weight k = S (weight (with_stat k (SWait cl)))).
+  { unfold weight, todo, pending, is_held. cbn [with_stat k_stat k_prog]. rewrite Hst. cbn [app length]. lia. }
+  lia.
+Qed.
+
+Lemma demand_of_nonneg : forall r l, (forall cl, In cl l -> 0 <= c_len cl) -> 0 <= demand_of rs r l.
+Proof.
+  intros r l H. unfold demand_of. induction l as [|h t IH]; cbn [map]; [cbn; lia|].
+  rewrite sumZ_cons. pose proof (rd_len_nonneg rs r h (H h (or_introl eq_refl))).
+  assert (0 <= sumZ (map (rd_len rs r) t)) by (apply IH; intros; apply H; simpl; auto). lia.
+Qed.
+
+Lemma rdemand_ge : forall l r i k, (forall k', In k' l -> 0 <= demand_of rs r (todo k')) ->
+  nth_error l i = Some k -> demand_of rs r (todo k) <= rdemand rs l r.
+Proof.
+  unfold rdemand. induction l as [|h t IH]; intros r [|i] k Hn Hk; cbn [nth_error] in Hk; try discriminate;
+    cbn [map]; rewrite sumZ_cons.
+  - inversion Hk; subst.
+    assert (0 <= sumZ (map (fun k0 => demand_of rs r (todo k0)) t)).
+    { clear IH Hk. induction t as [|a t IHt]; [cbn; lia|]. cbn [map]. rewrite sumZ_cons.
+      pose proof (Hn a (or_intror (or_introl eq_refl))).
+      assert (0 <= sumZ (map (fun k0 => demand_of rs r (todo k0)) t)).
+      { apply IHt. intros k' [E|Hin]; apply Hn; simpl; auto. }
+      lia. }
+    lia.
+  - pose proof (Hn h (or_introl eq_refl)).
+    pose proof (IH r i k (fun k' Hin => Hn k' (or_intror Hin)) Hk). lia.
+Qed.
+
+(** every call a caller still has to make is one of its program's *)
+Lemma todo_in_prog : forall rest st i c k cl, Inv None rest total st ->
+  nth_error cs i = Some c -> nth_error (s_callers st) i = Some k -> In cl (todo k) -> In cl (cs_prog c).
+Proof.
+  intros rest st i c k cl HI Hc Hk Hin.
+  destruct (i_callers _ _ _ _ _ _ HI i c k Hc Hk) as [_ _ _ _ _ _ [done [T [G1 _]]]].
+  rewrite G1. apply in_or_app; auto.
+Qed.
+
+Lemma stuck_finished : forall st, Inv None [] total st ->
+  first_idx (completable st) (s_inflight st) O = None ->
+  first_idx is_held (s_callers st) O = None ->
+  all_finished st = true.
+Proof.
+  intros st HI Hc Hh. unfold all_finished. apply forallb_forall. intros k Hin.
+  unfold finished. destruct (k_stat k) as [|cl|cl|] eqn:Hst; auto.
+  - pose proof (first_idx_none _ _ _ Hh k Hin) as H. unfold is_held in H. rewrite Hst in H. discriminate.
+  - exfalso. apply In_nth_error in Hin as [i Hk].
+    destruct (i_fl_b _ _ _ _ _ _ HI i k cl Hk Hst) as [q [Hq Hown]].
+    destruct (i_fl_a _ _ _ _ _ _ HI q Hq) as [kq [cl' [Hkq [Hstq Hqeq]]]].
+    rewrite Hown in Hkq. assert (kq = k) by congruence; subst kq. assert (cl' = cl) by congruence; subst cl'.
+    pose proof (first_idx_none _ _ _ Hc q Hq) as Hnc. unfold completable in Hnc.
+    assert (Hcl : q_call q = cl) by (rewrite Hqeq; auto). rewrite Hcl in Hnc.
+    assert (Hlc : (i < length cs)%nat) by (rewrite <- (i_len _ _ _ _ _ _ HI); eapply nth_error_some_lt; eauto).
+    destruct (nth_error_lt_some cs i Hlc) as [c Hcc].
+    assert (Hcin : In c cs) by (eapply nth_error_In; eauto).
+    assert (Hinp : In cl (cs_prog c)).
+    { eapply todo_in_prog; eauto. unfold todo, pending. rewrite Hst. simpl; auto. }
+    destruct (Hcalls c cl Hcin Hinp) as [Hrlt Hlen].
+    destruct (nth_error_lt_some rs _ Hrlt) as [sp Hsp].
+    assert (Hrlt' : (c_res cl < length (s_res st))%nat) by (rewrite (i_rlen _ _ _ _ _ _ HI); auto).
+    destruct (nth_error_lt_some (s_res st) _ Hrlt') as [x Hx].
+    destruct (i_res _ _ _ _ _ _ HI _ _ _ Hsp Hx) as [R1 [R2 [R3 [R4 [R5 R6]]]]].
+    rewrite (nth_error_nth _ _ _ rdummy Hx) in Hnc. unfold kernel in Hnc.
+    destruct (classify (r_kind x) (c_op cl)) eqn:Ecl; try discriminate.
+    2:{ destruct (r_eof x); discriminate. }
+    destruct (0 <? r_avail x) eqn:Eav; try discriminate.
+    destruct (r_eof x) eqn:Eeof; try discriminate.
+    assert (Hrd : readable (rs_kind sp) = true).
+    { rewrite <- R1. destruct (r_kind x), (c_op cl); simpl in Ecl; try discriminate; auto. }
+    assert (Heof : rs_eof sp = false) by congruence.
+    pose proof (i_suff _ _ _ _ _ _ HI _ sp x Hsp Hx Hrd Heof) as Hsuff.
+    assert (Hf0 : feeds_of rs [] (c_res cl) = 0).
+    { unfold feeds_of. destruct (feedable _ _); auto. }
+    assert (Hge : demand_of rs (c_res cl) (todo k) <= rdemand rs (s_callers st) (c_res cl)).
+    { apply rdemand_ge with (i := i); auto. intros k' Hin'. apply demand_of_nonneg.
+      intros cl0 Hcl0. apply In_nth_error in Hin' as [i' Hk'].
+      assert (Hlc' : (i' < length cs)%nat) by (rewrite <- (i_len _ _ _ _ _ _ HI); eapply nth_error_some_lt; eauto).
+      destruct (nth_error_lt_some cs i' Hlc') as [c' Hc'].
+      assert (In cl0 (cs_prog c')) by (eapply todo_in_prog; eauto).
+      destruct (Hcalls c' cl0 (nth_error_In _ _ Hc') H); lia. }
+    assert (Hd : c_len cl <= demand_of rs (c_res cl) (todo k)).
+    { unfold todo, pending. rewrite Hst. change ([cl] ++ k_prog k) with (cl :: k_prog k).
+      unfold demand_of. cbn [map]. rewrite sumZ_cons.
+      assert (rd_len rs (c_res cl) cl = c_len cl).
+      { unfold rd_len. rewrite Nat.eqb_refl, (nth_error_nth _ _ _ rsdummy Hsp), <- R1, Ecl. auto. }
+      assert (0 <= sumZ (map (rd_len rs (c_res cl)) (k_prog k))).
+      { apply (demand_of_nonneg (c_res cl) (k_prog k)). intros cl0 Hcl0.
+        assert (In cl0 (cs_prog c)) by (eapply todo_in_prog; eauto; unfold todo; apply in_or_app; auto).
+        destruct (Hcalls c cl0 Hcin H0); lia. }
+      lia. }
+    lia.
+Qed.
+
+Lemma move_progress : forall st, Inv None [] total st -> all_finished st = false ->
+  exists st', move st = Some st' /\ Inv None [] total st' /\ (mu st' < mu st)%nat.
+Proof.
+  intros st HI Hnf. unfold move.
+  destruct (first_idx (completable st) (s_inflight st) O) as [j|] eqn:Hc.
+  - destruct (first_idx_some _ _ _ _ Hc) as [q [_ [Hq Hcq]]]. rewrite Nat.sub_0_r in Hq.
+    eexists. split; [reflexivity|]. split.
+    + eapply (complete_inv rs cs); eauto.
+    + eapply complete_mu; eauto.
+  - destruct (first_idx is_held (s_callers st) O) as [c|] eqn:Hh.
+    + destruct (first_idx_some _ _ _ _ Hh) as [k [_ [Hk Hhk]]]. rewrite Nat.sub_0_r in Hk.
+      eexists. split; [reflexivity|]. split.
+      * eapply (reg_inv rs cs); eauto.
+      * eapply reg_mu; eauto.
+    + rewrite (stuck_finished st HI Hc Hh) in Hnf. discriminate.
+Qed.
+
+Lemma settle_ok : forall fuel st, Inv None [] total st -> (mu st < fuel)%nat ->
+  Inv None [] total (settle fuel all_finished st) /\ all_finished (settle fuel all_finished st) = true.
+Proof.
+  induction fuel as [|f IH]; intros st HI Hmu; [lia|].
+  cbn [settle]. rewrite (i_alive _ _ _ _ _ _ HI).
+  destruct (all_finished st) eqn:Haf; auto.
+  destruct (move_progress st HI Haf) as [st' [Hm [HI' Hlt]]]. rewrite Hm. apply IH; auto. lia.
+Qed.
+
 End Script.
